@@ -741,8 +741,7 @@ class ImageBatch(DataTensor):
             size = grids[0].size()
             data = U.grid_resize(self, size, mode=mode, align_corners=align_corners)
         else:
-            points = grids[0].coords(device=self.device)
-            data = U.grid_sample(self, points, mode=mode, align_corners=align_corners)
+            data = self.sample(grids, mode=mode).tensor()
         # Construct image pyramid by repeated downsampling
         pyramid = {}
         batch = self._make_instance(data, grids)
